@@ -315,7 +315,7 @@ def taylorat(P, z0, reverse=False, size=None):
     Notice that when z0 is a zero of P then C_0 == 0.
     """
     if reverse:
-        return taylorat(P[::-1], z0, reverse=False)[::-1]
+        return taylorat(P[::-1], z0, reverse=False, size=size)[::-1]
     if isinstance(z0, (float, numpy.floating)):
         z0 = fa.utils.float2fraction(z0)
     k = len(P) - 1
